@@ -125,7 +125,9 @@ StringDictionaryHASHHF::StringDictionaryHASHHF(IteratorDictString *it, uint len,
   for (uint current = 1; current <= elements; current++) {
     // Checking the available space in textStrings and
     // realloc if required
-    while ((bytesStrings + (2 * maxlength)) > reservedStrings)
+    // (a coded string takes at most the 6 * maxlength bytes of tmp, and three
+    // closing bytes follow the last one)
+    while ((bytesStrings + (6 * maxlength) + 3) > reservedStrings)
       reservedStrings = Reallocate(&textStrings, reservedStrings);
 
     // Resetting variables for the next string
